@@ -47,7 +47,7 @@ const MODFORMS = { none: { mods: [] }, suffix1: { suffix: ['trim'], mods: ['trim
 
 function modelAttr(m) {
   const a = ARGS[m.arg], mf = MODFORMS[m.mod];
-  const name = 'v-model' + (m.arg === 'ns' ? ':arg' : '') + (mf.suffix ? mf.suffix.map((x) => '_' + x).join('') : '');
+  const name = (m.camel ? 'vModel' : 'v-model') + (m.arg === 'ns' ? ':arg' : '') + (mf.suffix ? mf.suffix.map((x) => '_' + x).join('') : '');
   return `${name}=${modelValueSrc(m)}`;
 }
 function modelValueSrc(m) {
@@ -118,7 +118,9 @@ function expectedSingle(c, env) {
 function judge(c, resps) {
   const r = resps[0];
   if (r.parse_error) return { engineError: 'generated case does not parse: ' + r.parse_error };
-  if (r.panic || r.died || r.hang || !r.eval_js) return { skip: true };
+  // a well-formed input of this space for which the transform panics or kills its process has no output that could satisfy the property
+  if (r.panic || r.died) return { viol: [{ clause: 'transform-failed', diff: r.panic ? 'panic' : 'process-died', msg: r.panic ? `panic in ${r.panic.stage}: ${r.panic.msg}` : 'the transform killed its process' }], obs: 'transform-failed' };
+  if (r.hang || !r.eval_js) return { skip: true };
   const env = mkEnv();
   const ctx = { names: env.names, flags: false };
   const viol = [];
@@ -170,6 +172,8 @@ function judge(c, resps) {
 
 function* singles() {
   for (const target of Object.keys(TARGETS)) for (const arg of Object.keys(ARGS)) for (const mod of Object.keys(MODFORMS)) yield { target, arg, mod };
+  // the camel-case spelling `vModel` is the same directive
+  for (const target of ['mv', 'op']) for (const arg of Object.keys(ARGS)) for (const mod of Object.keys(MODFORMS)) yield { target, arg, mod, camel: true };
 }
 
 function spaces(tier) {
@@ -208,6 +212,7 @@ function* shrink(c) {
     if (c.host !== 'Comp') yield Object.assign({}, c, { host: 'Comp' });
   } else {
     const m = c.m;
+    if (m.camel) yield Object.assign({}, c, { m: Object.assign({}, m, { camel: false }) });
     if (m.mod !== 'none') yield Object.assign({}, c, { m: Object.assign({}, m, { mod: 'none' }) });
     if (m.arg !== 'none') yield Object.assign({}, c, { m: Object.assign({}, m, { arg: 'none' }) });
     if (TARGETS[m.target].base) yield Object.assign({}, c, { m: Object.assign({}, m, { target: TARGETS[m.target].base }) });
